@@ -106,8 +106,6 @@ func (g *Game) Events() DrawEvents {
 		prev := Game{Start: g.Start, Moves: g.Moves[:n-1]}
 		pp := prev.Pos()
 		in := pp.Describe(g.Moves[n-1])
-		under := in.Promotion && g.Moves[n-1].Promo != Queen && g.Moves[n-1].Promo != Rook
-		_ = under
 		if in.Capture != Empty || (in.Promotion && g.Moves[n-1].Promo != Queen) {
 			cur := g.Pos()
 			d.Material = cur.InsufficientMaterial()
@@ -125,4 +123,18 @@ func (g *Game) EverDrawn() bool {
 		}
 	}
 	return false
+}
+
+// EverEvents is the union of the draw events over every node of the game after a move.
+func (g *Game) EverEvents() DrawEvents {
+	var u DrawEvents
+	for n := 1; n <= len(g.Moves); n++ {
+		h := Game{Start: g.Start, StartHalf: g.StartHalf, StartFull: g.StartFull, Moves: g.Moves[:n]}
+		e := h.Events()
+		u.Rep3 = u.Rep3 || e.Rep3
+		u.Rep5 = u.Rep5 || e.Rep5
+		u.Fifty = u.Fifty || e.Fifty
+		u.Material = u.Material || e.Material
+	}
+	return u
 }
